@@ -68,3 +68,33 @@ def receipts_harness(prop, tier, seed, cov, log):
                               'replay': f'.cache/bin/receipts -seed {seed} -rounds {rounds} -per 80'}, [l])
         viol.append((path, ''))
     return viol
+
+
+def auth_harness(prop, tier, seed, cov, log):
+    """C15: real auth wrappers over a real hdsclient.Client; Auth.admit on reference facts vs. what happened."""
+    n = 1500 if tier == 'quick' else 40000
+    r = subprocess.run([f'{L.BIN}/auth', '-seed', str(seed), '-n', str(n)], capture_output=True, text=True, env=L.GOENV, timeout=3000)
+    if r.returncode != 0:
+        path = L.write_replay(prop, 'auth-harness', {'property': prop, 'broken': 'go/cmd/auth'}, [r.stderr[-3000:]])
+        return [(path, ' no-failing-input-found')]
+    d = subprocess.run([L.DRIVER], input=r.stdout, capture_output=True, text=True)
+    cov['auth_requests'] = n
+    cov['auth_agree'] = d.stdout.count('A ok')
+    cov['auth_admitted'] = r.stdout.count('entered=1')
+    kinds = {}
+    for m in re.finditer(r'kinds=(\S+)', r.stdout):
+        for k in m.group(1).split('/'): kinds[k] = kinds.get(k, 0) + 1
+    cov['auth_token_kinds'] = kinds
+    viol = []; seen = set(); known = L.load_known(prop)
+    for l in d.stdout.split('\n'):
+        if not l.startswith('M '): continue
+        cause = l.split()[3]
+        if cause in seen: continue
+        seen.add(cause)
+        k = [e for e in known if e['cause'] == cause]
+        if k:
+            print(f'KNOWN-FINDING: property={prop} {k[0]["what"]} [{cause}]'); continue
+        path = L.write_replay(prop, cause, {'property': prop, 'cause': cause, 'seed': seed, 'tier': tier,
+                              'replay': f'.cache/bin/auth -seed {seed} -n {n} | lean/.lake/build/bin/driver'}, [l[:3000]])
+        viol.append((path, ''))
+    return viol
